@@ -3,6 +3,7 @@ identity, no made-up label, record kinds agree, export scans latest versions, la
 from ..cfg import Body
 from ..report import where
 from .c10 import pats, vname
+from .. import orderdom as od
 from .c32 import _Collect
 from . import c06, c07
 
@@ -94,7 +95,8 @@ def run(ctx, F, cg):
         # acceptable only when the creation is on the branch where the node has labels (is_empty() == false)
         guarded = False
         for t_ in b.calls():
-            if t_.path.rsplit("::", 1)[-1] == "is_empty" and t_.target is not None and b.dominates(t_.bb, c.bb):
+            if t_.path.rsplit("::", 1)[-1] == "is_empty" and t_.target is not None and b.dominates(t_.bb, c.bb) and t_.args and t_.args[0][0] != "k" \
+                    and any(f.endswith(".labels") for f in od.chain_fields(b, t_.args[0])):
                 sw = b.blocks[t_.target]["t"]
                 if sw[0] == "switch":
                     false_t = [tgt for v, tgt in sw[2] if v == "0"]
